@@ -327,6 +327,20 @@ def generated() -> dict[str, bytes]:
         src = g["gen/a.docx"] if k == "docx" else g["gen/ragged.xlsx"]
         g[f"gen/emptycore.{k}"] = _rezip(src, {"docProps/core.xml": empty_core.encode()})
         g[f"gen/nocore.{k}"] = _rezip(src, {"docProps/core.xml": None})
+    # properties whose text ends in characters that date / number clean-up code likes to strip
+    core_z = CORE.replace("Sim Title", "Generation Z").replace("Sim Author", "Jay-Z").replace("Sim Subject", " padded XYZ").replace("k1, k2", "A to Z, 0").replace("Sim Description", "ends with 000Z")
+    g["gen/coreZ.docx"] = _rezip(g["gen/a.docx"], {"docProps/core.xml": core_z.encode()})
+    g["gen/coreZ.xlsx"] = _rezip(g["gen/ragged.xlsx"], {"docProps/core.xml": core_z.encode()})
+    fxs = _fixtures()
+    for fx, out in (("fx/modern_ms/pptx_table.pptx", "pptx"),):
+        if fx in fxs:
+            g[f"gen/coreZ.{out}"] = _rezip(fxs[fx], {"docProps/core.xml": core_z.encode()})
+            g[f"gen/emptycore.{out}"] = _rezip(fxs[fx], {"docProps/core.xml": empty_core.encode()})
+            g[f"gen/nocore.{out}"] = _rezip(fxs[fx], {"docProps/core.xml": None})
+    meta_z = ODF_META.replace("Sim Title", "Generation Z").replace("Sim Author", "Jay-Z").replace("Sim Subject", " padded XYZ").replace("Sim Description", "ends with 000Z")
+    for k2 in ("odt", "ods", "odp"):
+        g[f"gen/metaZ.{k2}"] = _rezip(g[f"gen/a.{k2}"], {"meta.xml": meta_z.encode()})
+        g[f"gen/nometa.{k2}"] = _rezip(g[f"gen/a.{k2}"], {"meta.xml": None})
     empty_meta = re.sub(r"<(dc:title|meta:initial-creator|dc:creator|dc:subject|meta:keyword|dc:description|meta:creation-date)>[^<]*</\1>", r"<\1/>", ODF_META)
     g["gen/emptymeta.odt"] = _rezip(g["gen/a.odt"], {"meta.xml": empty_meta.encode()})
     g["gen/emptymeta.ods"] = _rezip(g["gen/a.ods"], {"meta.xml": empty_meta.encode()})
@@ -334,6 +348,11 @@ def generated() -> dict[str, bytes]:
     g["gen/a.eml"] = _eml()
     g["gen/att.eml"] = _eml([("note.txt", b"attached text\n"), ("doc.docx", g["gen/a.docx"]), ("blob.bin", b"\x00\x01\x02")])
     g["gen/a.mbox"] = _mbox()
+    # recipients repeated / many recipients / group syntax
+    g["gen/recipients.eml"] = (b"From: Alice <alice@example.org>\nTo: Bob <bob@example.org>, carol@example.org, Bob <bob@example.org>, \"Dan, D.\" <dan@example.org>\n"
+                               b"Cc: erin@example.org, frank@example.org, erin@example.org, Team: gina@example.org, hal@example.org;\nBcc: bob@example.org\n"
+                               b"Reply-To: alice@example.org, alice@example.org\nSubject: recipients\nDate: Tue, 02 Jan 2024 03:04:05 +0000\nMessage-ID: <r-1@example.org>\n\nbody\n")
+    g["gen/recipients.mbox"] = b"From alice@example.org Tue Jan  2 03:04:05 2024\n" + g["gen/recipients.eml"] + b"\n"
     g["gen/charsets.mbox"] = _mail_charsets("mbox")
     g["gen/charset-utf7-cut.eml"] = _mail_charsets("eml")
     g["gen/deep.html"] = b"<html><body>" + b"<div>" * 1500 + b"deep text" + b"</div>" * 1500 + b"</body></html>"
